@@ -302,6 +302,11 @@ func (c *SimConn) Close() error {
 	c.rt.K.Yield(c.task, "close")
 	c.Closed++
 	if c.Closed == 1 {
+		if c.cc.Measure {
+			now := readAllocBytes()
+			c.Alloc = append(c.Alloc, now-c.lastAlloc)
+			c.lastAlloc = now
+		}
 		c.rec("close", "")
 		c.CloseSeq = c.Events[len(c.Events)-1].Seq
 		return nil
